@@ -40,6 +40,9 @@ var CRLBehaviours = []string{
 	"delta-older-ok", "delta-older-wrong-signer", "delta-older-expired", "delta-older-forged-remove",
 	// next-update has passed, but lies AFTER the signing time the scenarios supply
 	"expired-after-st", "delta-expired-after-st",
+	// lists that are not acceptable AND list the certificate with an invalidity
+	// date that would excuse it: nothing about an unacceptable list counts
+	"expired-lists-inv-after", "wrong-signer-lists-inv-after", "delta-expired-lists-inv-after",
 	"delta-no-number", "base-no-number-delta",
 	"fetch-fail",
 }
@@ -215,6 +218,20 @@ func (k *Kit) buildCRL(beh string, slot int) *CRLSet {
 		base.SignKey = unrelated
 	case "expired":
 		base.NextUpdate = pki.Past.Add(time.Hour)
+	case "expired-lists-inv-after", "wrong-signer-lists-inv-after", "delta-expired-lists-inv-after":
+		far := time.Date(2095, 1, 1, 0, 0, 0, 0, time.UTC)
+		e := pki.CRLEntry{Serial: serial, Time: t1, Reason: 1, Invalidity: &far}
+		switch beh {
+		case "expired-lists-inv-after":
+			base.Entries = append(base.Entries, e)
+			base.NextUpdate = pki.Past.Add(time.Hour)
+		case "wrong-signer-lists-inv-after":
+			base.Entries = append(base.Entries, e)
+			base.SignKey = unrelated
+		default:
+			delta.Entries = append(delta.Entries, e)
+			delta.NextUpdate = pki.Past.Add(time.Hour)
+		}
 	case "expired-after-st":
 		base.NextUpdate = SigningTime.Add(24 * time.Hour)
 	case "delta-expired-after-st":
